@@ -4,7 +4,7 @@ S = "src/biotite/structure/"
 OBLIGATIONS = [
     SX("sx_segments", "sx_c17", "ob_segments", cls="E", quick=600, thorough=3000, parts={"quick": 8, "thorough": 16},
        functions=[S + "residues.py:*", S + "chains.py:*", S + "segments.py:*"],
-       bounds="arrays of 0..4 (thorough 0..5) atoms; between consecutive atoms every combination of {chain change, res_id -1/0/+1, insertion-code toggle, residue-name toggle}; starts, counts, masks, starts_for, positions (forward, reversed, repeated indices), apply (scalar, float, array-valued over bool and float data), spread, iteration + concatenation, names vs per-atom recomputation"),
+       bounds="arrays of 0..4 (thorough 0..5) atoms; between consecutive atoms every combination of {chain change, res_id -1/0/+1, insertion-code toggle, residue-name toggle}; starts, counts, masks, starts_for, positions (forward, reversed, repeated indices; indices n, n+1, -1 refused), apply (scalar, float, array-valued over bool and float data), spread, iteration + concatenation, names vs per-atom recomputation"),
     SX("sx_molecules", "sx_c17", "ob_molecules", cls="E", quick=300, thorough=900, parts={"quick": 4, "thorough": 5},
        functions=[S + "molecules.py:get_molecule_indices/get_molecule_masks/molecule_iter", S + "bonds.pyx:find_connected (compiled)"],
        bounds="every bond graph on 1..4 (thorough 1..5) atoms (all 2^6 / 2^10 edge sets): molecules == connected components (union-find), find_connected from every root"),
@@ -14,6 +14,9 @@ OBLIGATIONS = [
     SX("sx_long_chain", "sx_c17", "ob_long_chain", cls="E", quick=300, parts=1,
        functions=[S + "molecules.py:get_molecule_indices", S + "bonds.pyx:find_connected/_find_connected (compiled, recursive)"],
        bounds="linear chains of 10, 1000, 20000 and 200000 bonded atoms, each in a fresh interpreter"),
+    SX("sx_large", "sx_c17", "ob_large", cls="E", quick=300, thorough=900, parts={"quick": 3, "thorough": 4},
+       functions=[S + "molecules.py:get_molecule_indices/get_molecule_masks/molecule_iter", S + "bonds.pyx:find_connected (compiled)"],
+       bounds="structures of 9000, 10001, 12000 (thorough also 70000) atoms: bonded runs of 1, 2 or 5 atoms separated by unbonded atoms, with long-range bonds joining every / every third / no pair of neighbouring runs: molecules, masks and iteration == union-find components (isolated atoms are molecules of their own)"),
 ]
 EXPLANATION = "C17: residue, chain and molecule segmentation equals per-atom recomputation."
 ASSUMPTIONS = []
